@@ -669,6 +669,7 @@ def remap_by_types(
             # For each definition try to get typing results out of it.
             # Take the base possible one.
             return_results: List[_MethodTypeReturnInfo] = []
+            found_untyped: Optional[_MethodTypeReturnInfo] = None
             for base_obj in base_obj_list:
                 # Do basic static analysis without doing any call backs.
                 default_args_node, return_annotation_raw = _fill_in_default_arguments(
@@ -695,6 +696,16 @@ def remap_by_types(
                         )
                     )
 
+                elif found_untyped is None:
+                    # The method is there, it is only its return type that can't be worked
+                    # out (a type variable nothing binds): the call site is still known.
+                    found_untyped = _MethodTypeReturnInfo(
+                        node=default_args_node,
+                        return_type=Any,
+                        full_type_resolution=True,
+                        obj_info=base_obj,
+                    )
+
                 # If we need to do full type following, then we should do that now.
                 if len(return_results) == 0 or not return_results[-1].full_type_resolution:
                     r_result = self.type_follow_in_callbacks(m_name, base_obj, default_args_node)
@@ -706,6 +717,13 @@ def remap_by_types(
                     break
 
             # If we got nothing, then we really do not know what is going on.
+            if len(return_results) == 0 and found_untyped is not None:
+                self._found_types[node] = Any
+                logging.getLogger(__name__).warning(
+                    f"Return type of method {r_node.func.attr} on object {obj_type} can not be "
+                    "resolved - assuming Any"
+                )
+                return_results.append(found_untyped)
             if len(return_results) == 0:
                 if obj_type != Any:
                     self._found_types[node] = Any
